@@ -6,6 +6,7 @@ TIER=${1:-quick}; shift
 SEEDS=("$@"); [ ${#SEEDS[@]} -eq 0 ] && SEEDS=("")
 IDS=$(python3 -c "import json;print(' '.join(c['property_id'] for c in json.load(open('MANIFEST.json'))['checks']))")
 bad=0
+mkdir -p /dev/shm/sweep-$$ && cp known_findings.json /dev/shm/sweep-$$/
 for s in "${SEEDS[@]}"; do
   for id in $IDS; do
     if [ -n "$s" ]; then out=$(VERIF_SEED=$s VERIF_ROOT_OVERRIDE=/dev/shm/sweep-$$ ./check $id $TIER 2>&1); else out=$(./check $id $TIER 2>&1); fi
